@@ -105,12 +105,19 @@ package ch
 //@   modifies c.writer.buf.Buf, c.addendum
 //@   ensures [abstract] c.addendum
 
-//@ contract (c *Client) handshake$2() (err) props(C13)
+//@ contract (c *Client) handshake$2() (err) props(C10,C13)
 //@   requires *c != nil && *ctx != nil && *wgCtx != nil && *cancel != nil && wRI(c.writer) && !c.addendum
 //@   modifies all(*c), all(*ctx), all(*wgCtx), all(*cancel)
 //@   ensures err == nil ==> c.protocolVersion == min(old(c.protocolVersion), c.server.Revision) {negotiated-min}
 //@   ensures err == nil ==> c.addendum == (c.protocolVersion >= 54458) {addendum-iff-negotiated-revision-has-it}
 //@   ensures err == nil ==> len(c.writer.vec) == 0 && len(c.writer.buf.Buf) == 0 {nothing-left-pending}
+//@ -- C10: the client hello is written by THIS goroutine of the handshake's errgroup - it is started
+//@ -- after the watchdog goroutine was registered, so a cancellation that arrives while the write
+//@ -- blocks still closes the connection; the answer is awaited only after the hello was flushed
+//@ callsite (*Client).flush#1
+//@   assert len(c.writer.buf.Buf) > 0 || len(c.writer.vec) > 0 [C10,C13] {the-hello-is-staged-and-flushed-inside-the-guarded-goroutine}
+//@ callsite (*Client).packet
+//@   assert len(c.writer.vec) == 0 && len(c.writer.buf.Buf) == 0 [C10,C13] {hello-flushed-before-the-answer-is-awaited}
 
 //@ contract (o *Options) setDefaults() props(C13)
 //@   requires o != nil
